@@ -1,3 +1,6 @@
 pub mod cfgstate;
 pub mod c04;
 pub mod c12;
+pub mod c17;
+pub mod c19;
+pub mod c16;
